@@ -164,8 +164,9 @@ func (g *GoBackNConn) Send(data []byte) error {
 		}
 	}
 
-	if g.cfg.maxChunkSize == 0 {
-		// Splitting is disabled.
+	if g.cfg.maxChunkSize == 0 || len(data) == 0 {
+		// Splitting is disabled, or there is nothing to split: an empty
+		// message still needs one (final) packet to be delivered.
 		return sendPacket(&PacketData{
 			Payload:    data,
 			FinalChunk: true,
